@@ -26,7 +26,7 @@ def nontrivial(evs):
 
 def run(c):
     g.model(c, "MCGossipsub_canary_graftkind.cfg", "MeshEligible")
-    traces = g.drive(c, ["mesh"], 250, 4000)
+    traces = g.drive(c, ["mesh"], 500, 4000)
     g.validate(c, "TraceGossipsub_C28.cfg", traces, nontrivial)
     return c.finish(
         "model_checking",
